@@ -130,6 +130,28 @@ def pipeline_laws(arg):
                     if float((proj2 - proj).abs().max()) > 2e-4 * float(proj.abs().max()):
                         out.append(("C16:fourier-projection:idempotent", f"{tag} pad={pad}: not idempotent "
                                     f"({float((proj2 - proj).abs().max()):.3g})"))
+                    # the projection operator on waves of other shapes (odd / non-square ROI): detector-centred measured
+                    # amplitudes, this object's number of probe modes
+                    if pad == (0, 0):
+                        nm = int(cfg["num_probe_modes"])
+                        for shp in ((7, 7), (11, 13), (12, 9), (5, 8), (9, 9), (6, 10)):
+                            ov = torch.tensor(rng.normal(size=(nm, 3) + shp) + 1j * rng.normal(size=(nm, 3) + shp), dtype=overlap.dtype)
+                            Am = torch.tensor(rng.uniform(0.5, 1.5, size=(3,) + shp), dtype=pred.dtype)
+                            Am[:, 0, 1] = 0.0
+                            Am[:, shp[0] // 2, shp[1] // 2] = 0.0
+                            pj = p.fourier_projection(Am, ov)
+                            am = p.estimate_amplitudes(pj, corner_centered=False)
+                            par = "odd" if (shp[0] % 2 or shp[1] % 2) else "even"
+                            if float((am - Am).abs().max()) > 2e-4 * float(Am.max()):
+                                ms = float((torch.sort(am.reshape(3, -1), dim=1)[0] - torch.sort(Am.reshape(3, -1), dim=1)[0]).abs().max())
+                                out.append((f"C16:fourier-projection:amplitudes:{par}-roi", f"{tag} wave {shp[0]}x{shp[1]} modes={nm}: projected amplitudes "
+                                            f"differ from the measured ones by {float((am - Am).abs().max()):.3g}"
+                                            + (" (equal as a multiset: a permutation of the detector pixels)" if ms < 1e-4 else "")))
+                                break
+                            pj2 = p.fourier_projection(Am, pj)
+                            if float((pj2 - pj).abs().max()) > 2e-4 * float(pj.abs().max()):
+                                out.append((f"C16:fourier-projection:idempotent:{par}-roi", f"{tag} wave {shp[0]}x{shp[1]} modes={nm}: not idempotent"))
+                                break
     except Exception as ex:  # noqa: BLE001
         out.append(("C16:pipeline:raised", f"{tag}: {type(ex).__name__}: {str(ex)[:200]}"))
     return out, tables
